@@ -363,7 +363,7 @@ func (w *world) do(h hop) bool {
 	lockedBefore := w.model.Locked
 	findings := w.model.Step(op, obs)
 	m.Eval()
-	kn := h.kind.String2()
+	kn := kindName(h.kind)
 	m.Count("op:"+kn, 1)
 	m.Count("path:"+pname, 1)
 	m.Distinct(fmt.Sprintf("%s via %s locked=%v target=%s err=%v", kn, pname, lockedBefore, life, obs.Err))
@@ -388,7 +388,7 @@ func (w *world) do(h hop) bool {
 	return true
 }
 
-// String2 names harness kinds too.
+// kindName names harness kinds too.
 func kindName(k agentmodel.Kind) string {
 	switch k {
 	case kAdvance:
@@ -400,8 +400,6 @@ func kindName(k agentmodel.Kind) string {
 	}
 	return k.String()
 }
-
-type kindAlias = agentmodel.Kind
 
 func typOf(k *testKey) string {
 	if k == nil {
@@ -466,13 +464,9 @@ func checkAddFrame(fr []byte, h hop) string {
 	}
 	switch k.algo {
 	case "ssh-rsa":
-		var n *big.Int
-		priv := k.priv.(interface{ Public() any })
-		_ = priv
 		rk := rsaParts(k)
 		if !k.isCert {
-			n = r.mpint()
-			e := r.mpint()
+			n, e := r.mpint(), r.mpint()
 			if n.Cmp(rk.n) != 0 || e.Cmp(rk.e) != 0 {
 				return "RSA n/e differ from the key"
 			}
